@@ -724,8 +724,8 @@ func (rn *Runner) Run() {
 		}
 	}
 	scfg.Implicit = cfg.Policy == "implicit"
-	if cfg.Variant == "latereply" && rn.stall { // the silent server answers after all - three timeouts later
-		scfg.LateReply = 3 * StallTimeout
+	if cfg.Variant == "latereply" && rn.stall { // the silent server answers after all - one and a half timeouts later
+		scfg.LateReply = StallTimeout * 3 / 2 // after the client gave up, before a renewed timeout would expire
 	}
 	rn.srv = refsmtp.New(scfg, r)
 
@@ -809,8 +809,8 @@ func (rn *Runner) Run() {
 			mail.WithTLSConfig(&tls.Config{ServerName: "mail.example.test", MinVersion: tls.VersionTLS12})}
 	} else if cfg.Fallback {
 		opts = append(opts, mail.WithTLSPortPolicy(policy)) // 587 with fallback to 25 when opportunistic
-	} else if cfg.Variant == "customport" { // the port is chosen first, then the policy through the port-policy setter
-		opts = append(opts, mail.WithPort(2525), mail.WithTLSPortPolicy(policy))
+	} else if cfg.Variant == "customport" { // the port is chosen first (no TLS yet), the policy is tightened later through the port-policy setter
+		opts = append(opts, mail.WithPort(2525), mail.WithTLSPolicy(mail.NoTLS))
 	} else if cfg.Redial {
 		opts = append(opts, mail.WithTLSPolicy(mail.NoTLS)) // the policy of the scenario is set after the first dial
 	} else {
@@ -866,6 +866,9 @@ func (rn *Runner) Run() {
 	if err != nil {
 		rn.Infra = err
 		return
+	}
+	if cfg.Variant == "customport" {
+		c.SetTLSPortPolicy(policy)
 	}
 
 	sendRet := func(op string, err error, elapsed string) {
